@@ -157,11 +157,24 @@ fn other_cfg(cfg: &Cfg) -> Cfg {
     o
 }
 
-fn check_cfg(ctx: &Ctx, cfg: &Cfg, k_workers: usize, cont_len: usize, hist_depth: usize, thread_hist_depth: usize, rough: bool) -> JobOut {
+fn check_cfg(ctx: &Ctx, cfg: &Cfg, k_workers: usize, cont_len: usize, hist_depth: usize, thread_hist_depth: usize, mode: u8) -> JobOut {
     // full merges x assignments product: empty history (quick), histories up to length 1 (thorough)
     let full_product_hist: usize = if ctx.tier_thorough { 1 } else { 0 };
     let mut out = JobOut::default();
-    let alpha = if rough { roughen(&generic_alphabet(cfg.kind, false)) } else { generic_alphabet(cfg.kind, false) };
+    let alpha = match mode {
+        0 => generic_alphabet(cfg.kind, false),
+        1 => roughen(&generic_alphabet(cfg.kind, false)),
+        // prices shifted by -1: zeros among the inputs (zero bases, zero ranges: the rare branches
+        // where a "warn once" flag or a cached special case would live)
+        _ => generic_alphabet(cfg.kind, false)
+            .iter()
+            .map(|op| match op {
+                Op::S(x) => Op::S(x - 1.0),
+                Op::B(b) => Op::B(Bar { o: b.o - 1.0, h: b.h - 1.0, l: b.l - 1.0, c: b.c - 1.0, v: b.v }),
+                Op::Reset => Op::Reset,
+            })
+            .collect(),
+    };
     let other = other_cfg(cfg);
     let pool = Pool::new(k_workers);
     let counts = vec![cont_len; 3];
@@ -232,7 +245,7 @@ fn check_cfg(ctx: &Ctx, cfg: &Cfg, k_workers: usize, cont_len: usize, hist_depth
         }
         // (B') the FULL product: every merge x every worker assignment (up to renaming) x clone worker,
         // for the shortest histories
-        if !rough && h.len() <= full_product_hist {
+        if mode == 0 && h.len() <= full_product_hist {
             'p: for m in &all_merges {
                 for a in &all_assign {
                     for cw in 0..k_workers.min(2) as u8 {
@@ -676,6 +689,70 @@ pub fn ownership_audit() -> Vec<String> {
     hits
 }
 
+fn default_vs_new(kind: Kind) -> JobOut {
+    let mut out = JobOut::default();
+    let mut cfg = kind.default_cfg();
+    let rep = std::panic::catch_unwind(|| {
+        let d = crate::subjects::make_default(kind);
+        (d.period(), d.multiplier())
+    });
+    match rep {
+        Ok((p, m)) => {
+            if let Some(p) = p {
+                cfg.p[0] = p;
+            }
+            if let Some(m) = m {
+                cfg.mult = m;
+            }
+        }
+        Err(_) => {
+            out.fail(Violation::new(PROP, &cfg, &[], "panic").obs("Default::default() panicked".into()).exp("an instance".into()));
+            return out;
+        }
+    }
+    if cfg.periods().iter().any(|p| *p == 0) {
+        return out;
+    }
+    let alpha = roughen(&generic_alphabet(kind, false));
+    let len = 3 * cfg.max_period() + 5;
+    for pat in 0..3usize {
+        let ops: Vec<Op> = (0..len).map(|i| alpha[match pat { 0 => i % alpha.len(), 1 => (i * 3 + i / 4) % alpha.len(), _ => (i / 3) % alpha.len() }]).collect();
+        let r = std::panic::catch_unwind(std::panic::AssertUnwindSafe(|| {
+            let mut d = crate::subjects::make_default(kind);
+            let mut n = make(&cfg);
+            for (i, op) in ops.iter().enumerate() {
+                let (a, b) = (d.apply(op), n.apply(op));
+                if !a.bits_eq(&b) {
+                    return Some((i, a, b));
+                }
+            }
+            None
+        }));
+        out.stats.traces += 1;
+        out.stats.states += len as u64;
+        out.stats.transitions += 2 * len as u64;
+        out.stats.evaluations += len as u64;
+        match r {
+            Ok(None) => {}
+            Ok(Some((i, a, b))) => {
+                out.fail(
+                    Violation::new(PROP, &cfg, &ops[..=i], "default-instance-differs-from-new")
+                        .obs(out2s(&a))
+                        .exp(out2s(&b))
+                        .det(format!("{}::default() reports the parameters of {} but its output {} differs from an instance built with new(those parameters) fed the same history", kind.rust_type(), cfg.descr(), i + 1))
+                        .with("constructor", format!("{}::default()", kind.rust_type())),
+                );
+                return out;
+            }
+            Err(_) => {
+                out.fail(Violation::new(PROP, &cfg, &ops, "panic").obs("panic".into()).exp("outputs".into()));
+                return out;
+            }
+        }
+    }
+    out
+}
+
 pub fn run(ctx: &Ctx) -> CheckResult {
     let mut res = CheckResult::new(PROP, "model_checking");
     let th = ctx.tier_thorough;
@@ -685,12 +762,23 @@ pub fn run(ctx: &Ctx) -> CheckResult {
         cfgs.extend(generic_cfgs(k, &[1, 3], &[1, 3]).into_iter().filter(|c| c.kind.nperiods() < 2 || c.p[0] != c.p[1] || c.p[0] == 3));
     }
     // each job owns a private worker pool, so jobs run in parallel without sharing threads
-    let outs = par_run(ctx, &cfgs, |_, cfg| check_cfg(ctx, cfg, k_workers, cont_len, hist_depth, thread_hist_depth, false));
+    let outs = par_run(ctx, &cfgs, |_, cfg| check_cfg(ctx, cfg, k_workers, cont_len, hist_depth, thread_hist_depth, 0));
     res.absorb(merge_jobs(outs));
     // the same with an inexact alphabet (bit-equality is the oracle: summation order / buffer layout must not matter);
     // thread assignments only for the shortest histories here
     if !res.out.failed() {
-        let outs = par_run(ctx, &cfgs, |_, cfg| check_cfg(ctx, cfg, k_workers, cont_len, hist_depth, 0, true));
+        let outs = par_run(ctx, &cfgs, |_, cfg| check_cfg(ctx, cfg, k_workers, cont_len, hist_depth, 0, 1));
+        res.absorb(merge_jobs(outs));
+    }
+    // and with zeros among the inputs
+    if !res.out.failed() {
+        let outs = par_run(ctx, &cfgs, |_, cfg| check_cfg(ctx, cfg, k_workers, cont_len, hist_depth, 0, 2));
+        res.absorb(merge_jobs(outs));
+    }
+    // (G) Default::default() vs new(the parameters the default instance reports): same parameters,
+    // same history -> bit-identical
+    if !res.out.failed() {
+        let outs = par_run(ctx, &ALL_KINDS, |_, k| default_vs_new(*k));
         res.absorb(merge_jobs(outs));
     }
     // (D) long continuations after the clone
@@ -750,7 +838,7 @@ pub fn run(ctx: &Ctx) -> CheckResult {
     res.require(res.out.stats.counters.get("schedules_threads").copied().unwrap_or(0) > 1 || res.out.failed(), "no multi-thread schedule was executed");
     res.rule = "case = (configuration, history h at which the clone is taken, schedule): objects {original after h, its clone, unrelated instance with other parameters} each get a continuation; a schedule = interleaving of their operations + assignment of every step to a real OS worker thread; oracle = every output bit-identical to a fresh instance replaying that object's own operations on the main thread; non-trivial = schedule executed on >= 1 worker thread other than main".into();
     res.bounds = format!(
-        "all 22 indicators, periods {{1,3}}, each part on the exact alphabet and on an inexact one (x -> 0.7x+0.013, so that summation order and buffer layout are observable under bit-equality); every history in seq(4 symbols, {hist_depth}) as clone point; (A) all {} merges of 3x{cont_len} ops on one thread; (B) histories up to length {thread_hist_depth}: 3 canonical merges x all worker assignments up to renaming on {k_workers} real threads x clone taken on worker 0/1; (B') for the empty history (thorough: histories up to length 1) the FULL product of all merges x all worker assignments x clone worker; (C) all 16x16 continuation pairs for original/clone under 3 sequential schedules; (F) ambient state: instances with the same parameters and history (periods 2, 32, 33, 64, 90) built first / after others were used past their wrap-around and dropped / as lock-step siblings / on another thread must agree bit for bit; (E) Clone::clone_from between instances with different parameters and histories (copy must replay like the source, source untouched); (D) periods 1..5(6): clone after every history up to depth 2(3) and after every prefix up to 2n+2 of two default streams, every continuation of n+2 inputs over 3 symbols for the clone while the original is fed different inputs in between; plus {rounds} free-running 16-thread rounds (SAMPLING, not part of the exhaustive claim)",
+        "all 22 indicators, periods {{1,3}}, each part on the exact alphabet and on an inexact one (x -> 0.7x+0.013, so that summation order and buffer layout are observable under bit-equality); every history in seq(4 symbols, {hist_depth}) as clone point; (A) all {} merges of 3x{cont_len} ops on one thread; (B) histories up to length {thread_hist_depth}: 3 canonical merges x all worker assignments up to renaming on {k_workers} real threads x clone taken on worker 0/1; (B') for the empty history (thorough: histories up to length 1) the FULL product of all merges x all worker assignments x clone worker; (C) all 16x16 continuation pairs for original/clone under 3 sequential schedules; (G) Default::default() vs new(reported parameters) bit for bit; the merges also on an alphabet containing zeros; (F) ambient state: instances with the same parameters and history (periods 2, 32, 33, 64, 90) built first / after others were used past their wrap-around and dropped / as lock-step siblings / on another thread must agree bit for bit; (E) Clone::clone_from between instances with different parameters and histories (copy must replay like the source, source untouched); (D) periods 1..5(6): clone after every history up to depth 2(3) and after every prefix up to 2n+2 of two default streams, every continuation of n+2 inputs over 3 symbols for the clone while the original is fed different inputs in between; plus {rounds} free-running 16-thread rounds (SAMPLING, not part of the exhaustive claim)",
         merges(&vec![cont_len; 3]).len()
     );
     let mut assumptions = vec![
